@@ -603,6 +603,43 @@ impl<'a> PublicRangeFinder<'a> {
     }
   }
 
+  /// Marks the `export * from "<specifier>"` of a module that is passed
+  /// through on the way to a named export as part of the public API.
+  fn add_re_export_all_range(
+    &mut self,
+    module: ModuleInfoRef<'a>,
+    specifier: &str,
+    referrer_nv: &PackageNv,
+  ) {
+    let Some(nv) = self
+      .url_converter
+      .registry_package_url_to_nv(module.specifier())
+    else {
+      return;
+    };
+    self.add_pending_nv(&nv, referrer_nv);
+    // have the module looked at (an untyped module gets its diagnostic)
+    self.add_pending_trace(
+      &nv,
+      module.specifier(),
+      ImportedExports::subset(NamedSubset::default()),
+    );
+    if let Some(mut re_export_all_nodes) = module.re_export_all_nodes()
+      && let Some(re_export_all_node) = re_export_all_nodes
+        .find(|node| node.src.value.to_string_lossy() == specifier)
+    {
+      self
+        .public_ranges
+        .entry(nv)
+        .or_default()
+        .module_ranges
+        .entry(module.specifier().clone())
+        .or_default()
+        .ranges
+        .insert(re_export_all_node.span.range());
+    }
+  }
+
   fn analyze_trace(&mut self, trace: &PendingTrace) {
     log::trace!("Trace - {} - {:?}", trace.specifier, trace.exports_to_trace);
     let Some(module) = self.graph.get(&trace.specifier) else {
@@ -886,61 +923,62 @@ impl<'a> PublicRangeFinder<'a> {
         if !named_exports.is_empty()
           && let Some(re_export_all_nodes) = module_info.re_export_all_nodes()
         {
-          for re_export_all_node in re_export_all_nodes {
-            if named_exports.is_empty() {
-              break; // all done
+          // Resolve the remaining names the way the exports of this module
+          // are resolved, starting at this module, so that a cycle of
+          // `export *` declarations is never followed back to where it
+          // started.
+          let re_export_all_nodes = re_export_all_nodes.collect::<Vec<_>>();
+          let own_exports = module_info.exports(self.root_symbol);
+          for i in (0..named_exports.len()).rev() {
+            let (export_name, _) = named_exports.get_index(i).unwrap();
+            if export_name == "default" {
+              // `export *` never re-exports the default export
+              continue;
             }
-            let specifier_text = re_export_all_node.src.value.to_string_lossy();
-            if let Some(dep_specifier) = self.graph.resolve_dependency(
-              &specifier_text,
-              module_info.specifier(),
-              /* prefer types */ true,
-            ) && let Some(module_info) =
-              self.root_symbol.module_from_specifier(dep_specifier)
+            let Some(ResolvedExportOrReExportAllPath::ReExportAllPath(path)) =
+              own_exports.resolved.get(export_name)
+            else {
+              continue;
+            };
+            if let Some(re_export_all_node) =
+              re_export_all_nodes.iter().find(|node| {
+                node.src.value.to_string_lossy() == path.specifier
+              })
+              && found_ranges.insert(re_export_all_node.span.range())
             {
-              let module_exports = module_info.exports(self.root_symbol);
+              log::trace!("Found re-export all - {}", path.specifier);
+            }
+            let export_name = export_name.clone();
+            let named_exports = named_exports.swap_remove(&export_name).unwrap();
+            // keep the `export *` of every module on the way to the module
+            // that declares the name...
+            let mut link = path;
+            while let ResolvedExportOrReExportAllPath::ReExportAllPath(next) =
+              &*link.next
+            {
+              self.add_re_export_all_range(
+                next.referrer_module,
+                next.specifier,
+                pkg_nv,
+              );
+              link = next;
+            }
+            // ...and trace the name there
+            let module = link.resolved_module();
+            if let Some(nv) = self
+              .url_converter
+              .registry_package_url_to_nv(module.specifier())
+            {
+              // the export might be declared in another package
+              self.add_pending_nv(&nv, pkg_nv);
 
-              for i in (0..named_exports.len()).rev() {
-                let (export_name, _) = named_exports.get_index(i).unwrap();
-                if export_name == "default" {
-                  // `export *` never re-exports the default export
-                  continue;
-                }
-                if let Some(export_path) =
-                  module_exports.resolved.get(export_name)
-                {
-                  if found_ranges.insert(re_export_all_node.span.range()) {
-                    log::trace!(
-                      "Found re-export all - {}",
-                      re_export_all_node.src.value.to_string_lossy()
-                    );
-                  }
-                  let export_name = export_name.clone();
-                  let named_exports =
-                    named_exports.swap_remove(&export_name).unwrap();
-                  let module = match export_path {
-                    ResolvedExportOrReExportAllPath::Export(e) => e.module,
-                    ResolvedExportOrReExportAllPath::ReExportAllPath(p) => {
-                      p.referrer_module
-                    }
-                  };
-                  if let Some(nv) = self
-                    .url_converter
-                    .registry_package_url_to_nv(module.specifier())
-                  {
-                    // the export might be declared in another package
-                    self.add_pending_nv(&nv, pkg_nv);
-
-                    let mut new_named_exports = NamedSubset::default();
-                    new_named_exports.0.insert(export_name, named_exports);
-                    self.add_pending_trace(
-                      &nv,
-                      module.specifier(),
-                      ImportedExports::subset(new_named_exports),
-                    );
-                  }
-                }
-              }
+              let mut new_named_exports = NamedSubset::default();
+              new_named_exports.0.insert(export_name, named_exports);
+              self.add_pending_trace(
+                &nv,
+                module.specifier(),
+                ImportedExports::subset(new_named_exports),
+              );
             }
           }
 
